@@ -56,6 +56,28 @@ class SimPool:
             if n > 1000:
                 raise HarnessError('tasks keep spawning tasks')
 
+    def drain(self):
+        """Run every pending task, in submission order, on one fresh worker thread (for long backlogs)."""
+        pend = self.pending()
+
+        def work():
+            for f, fn, args, kwargs in pend:
+                if not f.set_running_or_notify_cancel():
+                    continue
+                try:
+                    r = fn(*args, **kwargs)
+                except BaseException as e:      # noqa
+                    f.set_exception(e)
+                else:
+                    f.set_result(r)
+        t = threading.Thread(target=work, name='sim-worker-%d' % len(self.worker_names))
+        self.worker_names.append(t.name)
+        t.start()
+        t.join(120)
+        if t.is_alive():
+            raise HarnessError('simulated worker did not finish')
+        return len(pend)
+
     def shutdown(self, wait=True, **kw):
         self.shutdown_called = True
 
